@@ -447,6 +447,20 @@ def run(ctx, host=None):
             else:
                 chk.bad(R5, imp.qualname, norm(n), 'a whole-object read in import_objects is not guarded by the memory budget', where=f'{imp.module.relpath}:{n.lineno}')
 
+    # shutil.copyfileobj(src, dst, length): the third argument is the buffer size -- it must be a constant (or absent), never a per-object quantity
+    for f in prog.all_functions():
+        if isinstance(f.node, ast.Lambda):
+            continue
+        for n in walk_local(f.node):
+            if isinstance(n, ast.Call) and norm(n.func).endswith('copyfileobj'):
+                ln = n.args[2] if len(n.args) > 2 else next((k.value for k in n.keywords if k.arg == 'length'), None)
+                v = fold(prog, ln, f) if ln is not None else None
+                if ln is None or isinstance(v, int):
+                    chk.ok(R5, f.qualname, norm(n)[:80], detail='constant copy buffer', nontrivial=False)
+                else:
+                    chk.bad(R5, f.qualname, norm(n)[:100], f'the copy buffer size `{norm(ln)}` is not a constant: with an object-sized buffer the whole object is read into memory in one call',
+                            where=f'{f.module.relpath}:{n.lineno}')
+
     from .common import option_forwarding
     R6 = chk.rule('C18.R6', 'open_streams is forwarded unchanged by every wrapper (lazily opened inputs stay lazy)', 1)
     nf = option_forwarding(ctx, chk, R6, ['open_streams'])
